@@ -2,7 +2,7 @@ import CodeLimit.Lemmas.ProgTreeMarksLayout
 /-!
 # Scopes of a layout in which brace blocks may directly follow SUPPRESSED functions
 
-`C01.scopes_of_layout_partial` needs the clause `no_adjacent` for every function.  Here it is needed
+`C01.scopes_of_layout` needs the clause `no_adjacent` for every function.  Here it is needed
 only for the functions that are finally reported: a block that directly follows the body of a
 marked function is merged into the scope of that function (`C01.adjacent_block_is_merged`), but
 that scope is dropped by `_filter_nocl_scopes`, and nobody else needs the merged block.
